@@ -558,38 +558,89 @@ func genPurity(out string, root, helpers *pkgFiles) {
 				param = f.Names[0].Name
 			}
 		}
-		copyVar := ""
-		paramEscapes := false
-		ast.Inspect(fd.Body, func(n ast.Node) bool {
-			switch x := n.(type) {
-			case *ast.AssignStmt:
-				if len(x.Lhs) == 1 && len(x.Rhs) == 1 {
-					if ce, ok := x.Rhs[0].(*ast.CallExpr); ok && exprString(ce.Fun) == "append" && len(ce.Args) == 2 {
-						if in, ok := ce.Args[1].(*ast.CallExpr); ok && strings.HasSuffix(exprString(in.Fun), "DeepCloneNode") {
-							copyVar = exprString(x.Lhs[0])
+		// cloneThenEvaluate: in `body`, a slice is filled with DeepCloneNode(…) of the elements (`append(copy, DeepCloneNode(n))` or
+		// `copy[i] = DeepCloneNode(n)`), v.evaluate runs on that slice, and the parameter itself goes nowhere except len / make / DeepCloneNode /
+		// the listed helper calls
+		cloneThenEvaluate := func(body *ast.BlockStmt, param string, allowed map[*ast.CallExpr]bool) (evalOnCopy, escapes bool) {
+			copyVar := ""
+			ast.Inspect(body, func(n ast.Node) bool {
+				switch x := n.(type) {
+				case *ast.AssignStmt:
+					for _, r := range x.Rhs {
+						if exprString(r) == param {
+							escapes = true // `copy := nodes` is an alias, not a copy
+						}
+					}
+					if len(x.Lhs) == 1 && len(x.Rhs) == 1 {
+						if ce, ok := x.Rhs[0].(*ast.CallExpr); ok {
+							if exprString(ce.Fun) == "append" && len(ce.Args) == 2 {
+								if in, ok := ce.Args[1].(*ast.CallExpr); ok && strings.HasSuffix(exprString(in.Fun), "DeepCloneNode") {
+									copyVar = exprString(x.Lhs[0])
+								}
+							}
+							if strings.HasSuffix(exprString(ce.Fun), "DeepCloneNode") {
+								if ie, ok := x.Lhs[0].(*ast.IndexExpr); ok {
+									copyVar = exprString(ie.X)
+								}
+							}
+						}
+					}
+				case *ast.CallExpr:
+					f := exprString(x.Fun)
+					if f == "len" || strings.HasSuffix(f, "DeepCloneNode") || f == "make" || allowed[x] {
+						return true
+					}
+					for _, a := range x.Args {
+						if exprString(a) == param {
+							escapes = true
 						}
 					}
 				}
-			case *ast.CallExpr:
-				f := exprString(x.Fun)
-				if f == "len" || strings.HasSuffix(f, "DeepCloneNode") || f == "make" {
+				return true
+			})
+			ast.Inspect(body, func(n ast.Node) bool {
+				if ce, ok := n.(*ast.CallExpr); ok && exprString(ce.Fun) == "v.evaluate" && len(ce.Args) >= 2 && exprString(ce.Args[1]) == copyVar && copyVar != "" {
+					evalOnCopy = true
+				}
+				return true
+			})
+			return
+		}
+		evalOnCopy, paramEscapes := cloneThenEvaluate(fd.Body, param, nil)
+		if !evalOnCopy && param != "" {
+			// the cloning and the evaluation may live in a helper method that receives the nodes: the same must hold there, and here the
+			// parameter goes to that helper only
+			ast.Inspect(fd.Body, func(n ast.Node) bool {
+				ce, ok := n.(*ast.CallExpr)
+				if !ok || evalOnCopy {
 					return true
 				}
-				for _, a := range x.Args {
-					if exprString(a) == param {
-						paramEscapes = true
+				sel, ok := ce.Fun.(*ast.SelectorExpr)
+				if !ok {
+					return true
+				}
+				h := root.method("Vue", sel.Sel.Name)
+				if h == nil || h == fd || h.Type.Params == nil {
+					return true
+				}
+				var hp []string
+				for _, f := range h.Type.Params.List {
+					for _, nm := range f.Names {
+						hp = append(hp, nm.Name)
 					}
 				}
-			}
-			return true
-		})
-		evalOnCopy := false
-		ast.Inspect(fd.Body, func(n ast.Node) bool {
-			if ce, ok := n.(*ast.CallExpr); ok && exprString(ce.Fun) == "v.evaluate" && len(ce.Args) >= 2 && exprString(ce.Args[1]) == copyVar && copyVar != "" {
-				evalOnCopy = true
-			}
-			return true
-		})
+				for ai, a := range ce.Args {
+					if exprString(a) == param && ai < len(hp) {
+						e2, esc2 := cloneThenEvaluate(h.Body, hp[ai], nil)
+						_, escHere := cloneThenEvaluate(fd.Body, param, map[*ast.CallExpr]bool{ce: true})
+						if e2 && !esc2 {
+							evalOnCopy, paramEscapes = true, escHere
+						}
+					}
+				}
+				return true
+			})
+		}
 		cloned = param != "" && evalOnCopy && !paramEscapes
 	} else {
 		fail("purity", fmt.Errorf("Vue.renderNodesWithContext not found"))
